@@ -151,7 +151,7 @@ def execute(sc, sched):
     if alive2 or any(s['times'] in (0, None) for s in run.sources):
       res.nontrivial.append(hash(kinds))
     if res.outcome == 'violation' or sched.get('seed', 0) % 499 == 0:
-      ta = ac.timer_appends(run, 0) if run.objs else {}
+      ta = ac.source_appends(run, 0) if run.objs else {}
       res.sample = {'sources': [{k: s[k] for k in ('kind', 'period', 'times', 'deferred', 't0_us', 'threads')} for s in run.sources],
                     'horizon_s': hor, 'jitter_us': sc.get('jitter_us'),
                     'append_instants_us': {k: [a[3] for a in v][:12] for k, v in ta.items()}}
@@ -162,7 +162,7 @@ def execute(sc, sched):
 
 def judge(sc, run, sim, reason, res):
   hor_us = int(sc['horizon_s'] * 1e6) if sc.get('horizon_s') else None
-  appends = ac.timer_appends(run, 0)
+  appends = ac.source_appends(run, 0)
   q = ac.replay_queue(run, 0)
   pos = {a[0]: a for a in q['adds']}
   jitter = bool(sc.get('jitter_us'))
@@ -170,17 +170,11 @@ def judge(sc, run, sim, reason, res):
     if s['rejected']:
       res.violate('timed-post-raised', {'exc': s['exc']}, 'timed post %s raised %s' % (s, s['exc']))
       return
-    if len(s['threads']) != 1:
-      res.violate('timer-thread-count', {'n': len(s['threads'])}, 'a timed post created %d timer threads' % len(s['threads']))
-      return
-    got = appends.get(s['threads'][0], [])
+    got = appends.get(s['uid'], [])
     desc = 'source %s/%s period=%s times=%s deferred=%s started at %.6fs' % (s['kind'], s['sig'], s['period'], s['times'], s['deferred'], s['t0_us'] / 1e6)
     want_op = 'append' if s['kind'] == 'fifo' else 'appendleft'
-    for seq, op, uid, t in got:
+    for seq, op, uid, t, _tn in got:
       a = pos.get(seq)
-      if uid != s['uid']:
-        res.violate('timer-posted-wrong-event', {}, '%s posted %s' % (desc, uid))
-        return
       at_front, at_back = a[5] == 0, a[5] == a[6]
       if not (at_back if s['kind'] == 'fifo' else at_front):
         res.violate('timed-post-wrong-end', {'kind': s['kind']}, '%s: posting at t=%.6f landed at index %d of %d pending' % (desc, t / 1e6, a[5], a[6]))
